@@ -5,17 +5,29 @@ ROOT = os.path.dirname(os.path.dirname(os.path.abspath(__file__)))
 rows = []; n = c = 0
 import collections
 rounds = collections.defaultdict(lambda: [0, 0, 0])  # kept, missed by the first run of the own check, caught now by own check
+# which round produced change <p>-<i>: per property, (last id of a round, round)
+ROUNDS = {
+    "C03": [(2, 1), (5, 2), (8, 3), (11, 4), (14, 6), (17, 8)],
+    "C04": [(2, 1), (5, 2), (8, 3), (11, 4), (14, 6), (17, 8)],
+    "C15": [(2, 1), (5, 2), (8, 3), (11, 4), (14, 6), (17, 8)],
+    "C13": [(2, 1), (5, 2), (8, 3), (11, 4), (14, 5), (17, 8)],
+    "C05": [(2, 1), (5, 2), (8, 3), (11, 4), (14, 5), (17, 7)],
+    "C12": [(2, 1), (5, 2), (8, 3), (11, 4), (14, 5), (17, 7)],
+    "C14": [(2, 1), (5, 2), (8, 3), (11, 4), (14, 5), (17, 7)],
+    "C16": [(2, 1), (5, 2), (8, 3), (11, 4), (14, 5), (17, 7)],
+    "C17": [(2, 1), (5, 2), (8, 3), (11, 4), (14, 5), (17, 7)],
+    "C06": [(2, 1), (5, 2), (8, 4), (11, 5), (14, 7)],
+    "C08": [(2, 1), (5, 2), (8, 4), (11, 5), (14, 7)],
+    "C11": [(2, 1), (5, 2), (8, 4), (11, 5), (14, 7)],
+    "C09": [(2, 1), (5, 3), (8, 4), (11, 6)],
+    "C10": [(2, 1), (5, 3), (8, 4), (11, 6), (14, 8)],
+    "C18": [(2, 1), (5, 3), (8, 4), (11, 6), (14, 8)],
+}
 def round_of(p, i):
-    if i <= 2: return 1
-    if p in ("C09", "C10", "C18"):
-        return 3 if i <= 5 else (4 if i <= 8 else 6)
-    if p in ("C06", "C08", "C11"):
-        return 2 if i <= 5 else (4 if i <= 8 else (5 if i <= 11 else 7))
-    if i <= 5: return 2
-    if i <= 8: return 3
-    if i <= 11: return 4
-    if p in ("C03", "C04", "C15"): return 6
-    return 5 if i <= 14 else 7
+    for last, r in ROUNDS[p]:
+        if i <= last:
+            return r
+    return 9
 def key(d):
     p, i = d.split("-"); return (p, int(i))
 for d in sorted(os.listdir(os.path.join(ROOT, "seeded")), key=key):
